@@ -384,6 +384,11 @@ func (w *World) structStdoutWriters(allowed []string) []structResult {
 						case "fmt.Print", "fmt.Printf", "fmt.Println", "builtin.print", "builtin.println":
 							what = "call to " + funcKey(callee)
 						}
+						// the msg library: the F-variants write to the stream they are given, the others
+						// (Info, Warn, Success, Title ...) straight to the process's standard output
+						if callee.Pkg != nil && strings.HasSuffix(callee.Pkg.Pkg.Path(), "FollowTheProcess/msg") && !strings.HasPrefix(callee.Name(), "F") && callee.Name() != "Error" {
+							what = "call to msg." + callee.Name() + " (writes to os.Stdout)"
+						}
 					}
 					if bi, isB := c.Common().Value.(*ssa.Builtin); isB && (bi.Name() == "print" || bi.Name() == "println") {
 						what = "builtin " + bi.Name()
